@@ -122,6 +122,7 @@ func main() {
 			if !failing {
 				rs := selfTest(c)
 				c.R.selfTestResults = rs
+				c.R.benignResults = selfTestBenign(c)
 			}
 		}
 		return c.R.finish(c.Verif, seed())
